@@ -1,31 +1,390 @@
-use serde::{Deserialize, Serialize};
-use toml::value::Datetime;
-#[derive(Serialize, Deserialize, PartialEq, Debug)]
-struct S { d: Datetime }
-#[derive(Serialize, Deserialize, PartialEq, Debug)]
-struct V { v: Option<Vec<Option<i32>>> }
-#[derive(Serialize, Deserialize, PartialEq, Debug)]
-struct M { m: std::collections::BTreeMap<String, Option<i32>> }
-#[derive(Serialize, Deserialize, PartialEq, Debug)]
-struct I { i: i128 }
+//! serde observations (C07, C13, C17) on the real crates, driven by the runtime-typed `dynserde`.
+//!
+//!   fidelity <n>                 real derived family n vs its Dyn twin (must print fidelity=ok)
+//!   ser <type> <value>           the 7 encoding routes + round trip of each result          (C07)
+//!   routes <type> <doc> <val>    every decoding route on a document / single-value text    (C13)
+//!   routes_ser <type> <value>    the same on the text obtained by serializing the value    (C13)
+//!   tryfrom <type> <value>       Value/Table::try_from vs parse(to_string)                 (C13)
+//!   canon <type> <value>         determinism / fixpoint / plain vs pretty / Table twice    (C17)
+//!   display <tomlvalue>          toml::Value built with an explicit key insertion order     (C17)
+mod dynde;
+mod dynser;
+mod dynty;
+mod real;
+mod record;
+mod routes;
+
+use dynde::{with_type, DynOwned};
+use dynser::Typed;
+use dynty::*;
+use routes::*;
+use std::rc::Rc;
+use verif_harness::util::hex;
+use verif_harness::Args;
+
+fn arg_str(a: &[u8]) -> Result<&str, String> {
+    std::str::from_utf8(a).map_err(|_| "BADCASE utf8".to_string())
+}
+
+fn ty_val(args: &Args) -> Result<(Rc<DynType>, Dyn), String> {
+    if args.len() < 2 {
+        return Err("BADCASE args".into());
+    }
+    let ty = parse_type(arg_str(&args[0])?).map_err(|e| format!("BADCASE type {e}"))?;
+    let v = parse_value(arg_str(&args[1])?).map_err(|e| format!("BADCASE value {e}"))?;
+    Ok((Rc::new(ty), v))
+}
+
+fn valid_doc(s: &str) -> bool {
+    toml_edit::ImDocument::parse(s.to_string()).is_ok()
+}
+
+/// `=` when the dump is byte-identical to the reference, else the dump itself
+fn rel(dump: &str, reference: &str) -> String {
+    if dump == reference {
+        "=".to_string()
+    } else {
+        dump.to_string()
+    }
+}
+
+fn show_dec(r: Result<DynOwned, String>, reference: &mut Option<String>) -> String {
+    match r {
+        Ok(d) => {
+            let s = dyn_string(&d.0);
+            match reference {
+                Some(r) => format!("ok:{}", rel(&s, r)),
+                None => {
+                    *reference = Some(s.clone());
+                    format!("ok:{s}")
+                }
+            }
+        }
+        Err(_) => "err".to_string(),
+    }
+}
+
+fn cmd_fidelity(args: &Args) -> String {
+    let n: usize = match args.first().and_then(|a| std::str::from_utf8(a).ok()).and_then(|s| s.parse().ok()) {
+        Some(n) => n,
+        None => return "BADCASE".into(),
+    };
+    match real::fidelity(n) {
+        None => "fidelity=none".into(),
+        Some((name, Ok(stats))) => format!("fidelity=ok family={} {}", name.replace(' ', "_"), stats),
+        Some((name, Err(e))) => format!("fidelity=BAD family={} detail={}", name.replace(' ', "_"), hex(e.as_bytes())),
+    }
+}
+
+fn cmd_ser(args: &Args) -> String {
+    let (ty, v) = match ty_val(args) {
+        Ok(x) => x,
+        Err(e) => return e,
+    };
+    let v0 = dyn_string(&v);
+    let mut out = Vec::new();
+    for r in 0..ENC_NAMES.len() {
+        let name = ENC_NAMES[r];
+        match encode(r, &Typed(&ty, &v)) {
+            Err(m) => out.push(format!("{name}=err({})", ser_kind(&m))),
+            Ok(enc) => {
+                let payload = match &enc {
+                    Enc::Text(s) => hex(s.as_bytes()),
+                    Enc::Doc(d) => hex(d.to_string().as_bytes()),
+                    Enc::Val(x) => tomlvalue_string(x, false),
+                    Enc::Tab(x) => tomlvalue_string(&toml::Value::Table(x.clone()), false),
+                };
+                let mut parts = vec![format!("{name}=ok:{payload}")];
+                let invalid = match &enc {
+                    Enc::Text(s) => !valid_doc(s),
+                    Enc::Doc(d) => !valid_doc(&d.to_string()),
+                    _ => false,
+                };
+                if invalid {
+                    parts.push("INVALID".into());
+                }
+                for (tag, res) in with_type(&ty, || decode_enc::<DynOwned>(&enc)) {
+                    parts.push(match res {
+                        Ok(d) => format!("{tag}:{}", rel(&dyn_string(&d.0), &v0)),
+                        Err(m) => format!("{tag}:ERR:{}", hex(m.as_bytes())),
+                    });
+                }
+                out.push(parts.join(";"));
+            }
+        }
+    }
+    out.join(" ")
+}
+
+fn routes_line(ty: &Rc<DynType>, doc: Option<&str>, val: Option<&str>, reference: &mut Option<String>) -> String {
+    let mut out = Vec::new();
+    match doc {
+        Some(doc) => {
+            out.push(format!("valid={}", valid_doc(doc) as u8));
+            for r in 0..DEC_DOC_NAMES.len() {
+                let res = with_type(ty, || decode_doc::<DynOwned>(r, doc));
+                out.push(format!("{}={}", DEC_DOC_NAMES[r], show_dec(res, reference)));
+            }
+        }
+        None => out.push("valid=na".into()),
+    }
+    if let Some(val) = val {
+        for r in 0..DEC_VAL_NAMES.len() {
+            let res = with_type(ty, || decode_val::<DynOwned>(r, val));
+            out.push(format!("{}={}", DEC_VAL_NAMES[r], show_dec(res, reference)));
+        }
+    }
+    out.join(" ")
+}
+
+fn cmd_routes(args: &Args) -> String {
+    if args.len() < 3 {
+        return "BADCASE args".into();
+    }
+    let ty = match arg_str(&args[0]).and_then(|s| parse_type(s).map_err(|e| format!("BADCASE type {e}"))) {
+        Ok(t) => Rc::new(t),
+        Err(e) => return e,
+    };
+    let doc = match arg_str(&args[1]) {
+        Ok(s) => s,
+        Err(_) => return "BADCASE utf8".into(),
+    };
+    let val = std::str::from_utf8(&args[2]).ok().filter(|s| !s.is_empty());
+    let mut reference = None;
+    routes_line(&ty, Some(doc), val, &mut reference)
+}
+
+fn cmd_routes_ser(args: &Args) -> String {
+    let (ty, v) = match ty_val(args) {
+        Ok(x) => x,
+        Err(e) => return e,
+    };
+    let mut reference = Some(dyn_string(&v));
+    let doc = toml::to_string(&Typed(&ty, &v));
+    let val = value_text(&Typed(&ty, &v));
+    let head = format!(
+        "doc={} val={}",
+        match &doc {
+            Ok(s) => format!("ok:{}", hex(s.as_bytes())),
+            Err(e) => format!("err({})", ser_kind(&e.to_string())),
+        },
+        match &val {
+            Ok(s) => format!("ok:{}", hex(s.as_bytes())),
+            Err(e) => format!("err({})", ser_kind(e)),
+        }
+    );
+    format!("{head} {}", routes_line(&ty, doc.as_deref().ok(), val.as_deref().ok(), &mut reference))
+}
+
+fn cmd_tryfrom(args: &Args) -> String {
+    let (ty, v) = match ty_val(args) {
+        Ok(x) => x,
+        Err(e) => return e,
+    };
+    let tv = Typed(&ty, &v);
+    let text = toml::to_string(&tv);
+    let show = |r: Result<String, String>, reference: Option<&String>| match r {
+        Ok(d) => match reference {
+            Some(x) => format!("ok:{}", rel(&d, x)),
+            None => format!("ok:{d}"),
+        },
+        Err(m) => format!("err({})", ser_kind(&m)),
+    };
+    let val = toml::Value::try_from(&tv).map(|x| tomlvalue_string(&x, true)).map_err(|e| e.to_string());
+    let txt = match &text {
+        Ok(s) => toml::from_str::<toml::Value>(s).map(|x| tomlvalue_string(&x, true)).map_err(|e| format!("REPARSE {e}")),
+        Err(e) => Err(e.to_string()),
+    };
+    let tab = toml::Table::try_from(&tv).map(|x| tomlvalue_string(&toml::Value::Table(x), true)).map_err(|e| e.to_string());
+    let ttxt = match &text {
+        Ok(s) => s.parse::<toml::Table>().map(|x| tomlvalue_string(&toml::Value::Table(x), true)).map_err(|e| format!("REPARSE {e}")),
+        Err(e) => Err(e.to_string()),
+    };
+    let vref = val.as_ref().ok().cloned();
+    let tref = tab.as_ref().ok().cloned();
+    format!("val={} txt={} tab={} ttxt={}", show(val, None), show(txt, vref.as_ref()), show(tab, None), show(ttxt, tref.as_ref()))
+}
+
+fn cmd_canon(args: &Args) -> String {
+    let (ty, v) = match ty_val(args) {
+        Ok(x) => x,
+        Err(e) => return e,
+    };
+    let tv = Typed(&ty, &v);
+    let s1 = match toml::to_string(&tv) {
+        Ok(s) => s,
+        Err(e) => return format!("s1=err({})", ser_kind(&e.to_string())),
+    };
+    let mut out = vec![format!("s1=ok:{}", hex(s1.as_bytes()))];
+    let heq = |a: &str, b: &str| if a == b { "=".to_string() } else { hex(b.as_bytes()) };
+    // determinism
+    out.push(match toml::to_string(&tv) {
+        Ok(s) => format!("det={}", heq(&s1, &s)),
+        Err(_) => "det=err".into(),
+    });
+    // to_string(from_str(to_string(v))) == to_string(v)
+    let v1 = toml::from_str::<toml::Value>(&s1);
+    let d1 = v1.as_ref().ok().map(|x| tomlvalue_string(x, true));
+    out.push(match &v1 {
+        Ok(x) => match toml::to_string(x) {
+            Ok(s2) => format!("s2={}", heq(&s1, &s2)),
+            Err(_) => "s2=err".into(),
+        },
+        Err(_) => "s2=noparse".into(),
+    });
+    // plain and pretty (both crates) decode to equal values
+    let dec = |name: &str, r: Result<String, String>| -> String {
+        match r {
+            Err(_) => format!("{name}=err"),
+            Ok(s) => match toml::from_str::<toml::Value>(&s) {
+                Err(_) => format!("{name}=noparse:{}", hex(s.as_bytes())),
+                Ok(x) => {
+                    let d = tomlvalue_string(&x, true);
+                    match &d1 {
+                        Some(r) => format!("{name}={}", rel(&d, r)),
+                        None => format!("{name}={d}"),
+                    }
+                }
+            },
+        }
+    };
+    out.push(format!("d1={}", d1.clone().unwrap_or_else(|| "noparse".into())));
+    let sp = toml::to_string_pretty(&tv).map_err(|e| e.to_string());
+    out.push(dec("dp", sp.clone()));
+    out.push(dec("de", toml_edit::ser::to_string(&tv).map_err(|e| e.to_string())));
+    out.push(dec("dep", toml_edit::ser::to_string_pretty(&tv).map_err(|e| e.to_string())));
+    // pretty fixpoint
+    if let Ok(sp) = &sp {
+        out.push(match toml::from_str::<toml::Value>(sp).map_err(|e| e.to_string()).and_then(|x| toml::to_string_pretty(&x).map_err(|e| e.to_string())) {
+            Ok(s) => format!("sp2={}", heq(sp, &s)),
+            Err(_) => "sp2=err".into(),
+        });
+    }
+    // parsing a toml::Table and printing it twice gives the same text
+    out.push(match s1.parse::<toml::Table>() {
+        Err(_) => "tt=noparse".into(),
+        Ok(t) => {
+            let p1 = t.to_string();
+            match p1.parse::<toml::Table>() {
+                Err(_) => format!("tt=noparse2:{}", hex(p1.as_bytes())),
+                Ok(t2) => {
+                    let p2 = t2.to_string();
+                    if p1 == p2 {
+                        format!("tt=ok:{}", heq(&s1, &p1))
+                    } else {
+                        format!("tt=DIFF:{}/{}", hex(p1.as_bytes()), hex(p2.as_bytes()))
+                    }
+                }
+            }
+        }
+    });
+    out.join(" ")
+}
+
+/// does the text list each table's own key/values before its sub-tables and arrays of tables?
+/// Checked on the parsed document: a header-defined table's `position` must be larger than its
+/// parent's, and a table holding values must not be implicit/dotted-only by accident.  The
+/// second, independent check (on the decoded value) is the python oracle's.
+fn values_first(doc: &toml_edit::DocumentMut) -> bool {
+    fn walk(t: &toml_edit::Table, parent_pos: Option<usize>) -> bool {
+        let my = t.position().or(parent_pos);
+        for (_, item) in t.iter() {
+            match item {
+                toml_edit::Item::Table(c) => {
+                    if let (Some(p), Some(q)) = (my, c.position()) {
+                        if q <= p && !t.is_implicit() && !c.is_dotted() {
+                            return false;
+                        }
+                    }
+                    if !walk(c, my) {
+                        return false;
+                    }
+                }
+                toml_edit::Item::ArrayOfTables(a) => {
+                    for c in a.iter() {
+                        if let (Some(p), Some(q)) = (my, c.position()) {
+                            if q <= p && !t.is_implicit() {
+                                return false;
+                            }
+                        }
+                        if !walk(c, my) {
+                            return false;
+                        }
+                    }
+                }
+                _ => {}
+            }
+        }
+        true
+    }
+    walk(doc.as_table(), None)
+}
+
+fn cmd_display(args: &Args) -> String {
+    let v = match args.first().ok_or("BADCASE args".to_string()).and_then(|a| arg_str(a)).and_then(|s| {
+        let mut t = Toks::new(s);
+        parse_tomlvalue(&mut t).map_err(|e| format!("BADCASE value {e}"))
+    }) {
+        Ok(v) => v,
+        Err(e) => return e,
+    };
+    let d0 = tomlvalue_string(&v, true);
+    let mut out = vec![format!("order={}", tomlvalue_string(&v, false))];
+    let mut doc_route = |name: &str, r: Result<String, String>| match r {
+        Err(m) => out.push(format!("{name}=err({})", ser_kind(&m))),
+        Ok(s) => {
+            let back = match toml::from_str::<toml::Value>(&s) {
+                Ok(x) => rel(&tomlvalue_string(&x, true), &d0),
+                Err(_) => "noparse".into(),
+            };
+            let vb = match s.parse::<toml_edit::DocumentMut>() {
+                Ok(d) => {
+                    if values_first(&d) {
+                        "vf"
+                    } else {
+                        "VALUES-AFTER-TABLES"
+                    }
+                }
+                Err(_) => "noparse",
+            };
+            out.push(format!("{name}=ok:{};{};{}", hex(s.as_bytes()), back, vb));
+        }
+    };
+    doc_route("doc", toml::to_string(&v).map_err(|e| e.to_string()));
+    doc_route("pretty", toml::to_string_pretty(&v).map_err(|e| e.to_string()));
+    doc_route("edit", toml_edit::ser::to_string(&v).map_err(|e| e.to_string()));
+    doc_route("editp", toml_edit::ser::to_string_pretty(&v).map_err(|e| e.to_string()));
+    if let toml::Value::Table(t) = &v {
+        let p1 = t.to_string();
+        let p2 = t.to_string();
+        doc_route("tab", if p1 == p2 { Ok(p1) } else { Err("nondeterministic".into()) });
+    }
+    // Display of the Value itself: an inline value
+    let inl = v.to_string();
+    let back = {
+        use serde::Deserialize;
+        match toml::Value::deserialize(toml::de::ValueDeserializer::new(&inl)) {
+            Ok(x) => rel(&tomlvalue_string(&x, true), &d0),
+            Err(_) => "noparse".into(),
+        }
+    };
+    out.push(format!("inl=ok:{};{}", hex(inl.as_bytes()), back));
+    out.join(" ")
+}
+
+fn run_cmd(cmd: &str, args: &Args) -> String {
+    match cmd {
+        "fidelity" => cmd_fidelity(args),
+        "ser" => cmd_ser(args),
+        "routes" => cmd_routes(args),
+        "routes_ser" => cmd_routes_ser(args),
+        "tryfrom" => cmd_tryfrom(args),
+        "canon" => cmd_canon(args),
+        "display" => cmd_display(args),
+        _ => "unknown-command".to_string(),
+    }
+}
+
 fn main() {
-    let s = S { d: "1979-05-27T07:32:00Z".parse().unwrap() };
-    println!("to_string: {:?}", toml::to_string(&s));
-    let v = toml::Value::try_from(&s);
-    println!("try_from: {:?}", v);
-    let parsed: toml::Value = toml::from_str(&toml::to_string(&s).unwrap()).unwrap();
-    println!("parsed: {:?}", parsed);
-    println!("parsed.try_into: {:?}", parsed.clone().try_into::<S>());
-    println!("tryfrom.try_into: {:?}", v.unwrap().try_into::<S>());
-    println!("table try_from: {:?}", toml::Table::try_from(&s));
-    println!("root dt: {:?}", toml::to_string(&s.d));
-    println!("root dt edit: {:?}", toml_edit::ser::to_string(&s.d));
-    let x = V { v: Some(vec![Some(1), None]) };
-    println!("V to_string {:?}", toml::to_string(&x));
-    println!("V try_from {:?}", toml::Value::try_from(&x));
-    let m = M { m: [("a".to_string(), None), ("b".to_string(), Some(1))].into_iter().collect() };
-    println!("M to_string {:?}", toml::to_string(&m));
-    println!("M try_from {:?}", toml::Value::try_from(&m));
-    println!("I to_string {:?}", toml::to_string(&I{i:5}));
-    println!("I from {:?}", toml::from_str::<I>("i = 5"));
+    verif_harness::main_loop(run_cmd);
 }
